@@ -36,6 +36,8 @@ pub struct SeqScenario {
     pub crash_cap: u64,
     pub crash_seen: Mutex<HashSet<u64>>,
     pub punch_unsupported: bool,
+    /// report C01/C02/C03 oracle failures under this property instead (C10, C11, C12 runs)
+    pub relabel: Option<String>,
 }
 
 pub fn op_kind(op: &Op) -> &'static str {
@@ -74,6 +76,7 @@ impl SeqScenario {
             crash_cap: 1 << 14,
             crash_seen: Mutex::new(HashSet::new()),
             punch_unsupported: false,
+            relabel: None,
         }
     }
 
@@ -82,9 +85,9 @@ impl SeqScenario {
             "engine": "hist",
             "image": self.img.name,
             "image_kind": self.img.kind,
-            "cfg": self.cfg.describe(),
+            "cfg": self.cfg.describe(), "cfg_json": self.cfg.to_json(),
             "cfg_name": self.cfg_name,
-            "alt": self.alt.describe(),
+            "alt": self.alt.describe(), "alt_json": self.alt.to_json(),
             "salt": qcow2_rs::verif::ORDER_SALT.load(std::sync::atomic::Ordering::Relaxed),
             "punch_unsupported": self.punch_unsupported,
             "history": hist.iter().map(|o| o.to_json()).collect::<Vec<_>>(),
@@ -93,6 +96,10 @@ impl SeqScenario {
     }
 
     fn viol(&self, prop: &str, class: String, detail: String, hist: &[Op]) -> Violation {
+        let (prop, class) = match &self.relabel {
+            Some(r) if ["C01", "C02", "C03"].contains(&prop) => (r.as_str(), format!("{}:{}", prop, class)),
+            _ => (prop, class),
+        };
         Violation {
             prop: prop.into(),
             class: format!("{}|img={}|{}", class, self.img.kind, self.geo_traits()),
@@ -261,6 +268,7 @@ impl Scenario for SeqScenario {
             }
         }
 
+        let op_broken = res.panic.is_some();
         // ---- C16: every request of this transition is block aligned ----
         if o.c16 {
             let bs = 1u64 << w.cur_cfg().bs_bits;
@@ -315,7 +323,7 @@ impl Scenario for SeqScenario {
 
         // ---- digest before any perturbing oracle ----
         ev.digest = w.digest(o.c04 || o.c05);
-        if w.dev.is_none() {
+        if w.dev.is_none() || op_broken {
             ev.prune = true;
             ev.outcome = oh.finish();
             return ev;
